@@ -5,6 +5,6 @@ LEAN_MODULES = _auto.lean_modules("C09")
 VARIANTS = ['default']
 RULE = 'all MAC/legacy digest types x histories to depth 4 (quick) / 6 (thorough) over {input, result, raw_result, reset, clone} incl. repeated results and block-multiple messages; non-trivial = history contains data; distinct = distinct case lines'
 TRUSTED = ["hand-written Lean models (lean/CxVerif/Impl, Spec) tied to the code by the correspondence run and by tables re-extracted from /repo/src"]
-ASSUMPTIONS = []
+ASSUMPTIONS = ['length guards of the underlying hash/MAC as in C01/C05; `clone` independence is a correspondence obligation']
 gen = _auto.make_gen("C09")
 nontrivial = _auto.default_nontrivial
